@@ -66,8 +66,10 @@ pub fn is_field(s: &str) -> bool {
         None => is_ident(s),
     }
 }
+/// a grammar string literal is `"` non-quote characters `"`: no escape syntax exists, so every string
+/// without a quote — backslashes included, also as the last character — is printable as it is
 pub fn is_plain_string(s: &str) -> bool {
-    !s.contains('"') && !s.contains('\\')
+    !s.contains('"')
 }
 fn quoted(s: &str) -> Option<String> {
     if is_plain_string(s) { Some(format!("\"{s}\"")) } else { None }
